@@ -877,6 +877,12 @@ func runConc(prop, tier string, r *rng) {
 			resumeWalkCase(prop, fault)
 		}
 	}
+	if prop == "C17" {
+		for _, cache := range []int{2, 512} {
+			stalledReaderCase(prop, 12, 6, cache)
+			stalledReaderCase(prop, 10, 9, cache)
+		}
+	}
 	if prop == "C12" {
 		slowLookupCase(prop)
 		for _, b := range []int{1, 2, 64} {
@@ -1079,4 +1085,95 @@ func slowLookupCase(prop string) {
 	close(release)
 	core.GetGate = nil
 	emit("%s kind=slowlookup => parkedA=%s b=%s c=%s", prop, pa, b, c)
+}
+
+// stalledReaderCase: a reader of height to-1 is stalled inside the Store right after its datastore read of the header;
+// DeleteRange(1, to) runs to completion meanwhile; the reader goes on; a writer appends at the head. The tail stays at
+// `to` and nothing below it is served any more.
+func stalledReaderCase(prop string, n, to, cache int) {
+	ctx := context.Background()
+	chain := vhdr.Chain("A", n+2, time.Now().Add(-time.Hour).UnixNano(), 1e9, 0)
+	core := memds.NewCore()
+	st, err := store.NewStore[*vhdr.Header](&memds.Plain{C: core}, store.WithWriteBatchSize(1),
+		store.WithStoreCacheSize(cache), store.WithIndexCacheSize(cache))
+	if err != nil {
+		panic(err)
+	}
+	if err := func() error { sc, end := startCtx(); defer end(); return st.Start(sc) }(); err != nil {
+		panic(err)
+	}
+	defer bounded(func() { st.Stop(ctx) }) //nolint:errcheck
+	_ = st.Append(ctx, chain[:n]...)
+	_ = st.Sync(ctx)
+	// a fresh Store object over the same datastore: nothing is cached, the reader has to go to the datastore
+	_ = st.Stop(ctx)
+	st, err = store.NewStore[*vhdr.Header](&memds.Plain{C: core}, store.WithWriteBatchSize(1),
+		store.WithStoreCacheSize(cache), store.WithIndexCacheSize(cache))
+	if err != nil {
+		panic(err)
+	}
+	if err := func() error { sc, end := startCtx(); defer end(); return st.Start(sc) }(); err != nil {
+		panic(err)
+	}
+	heightKey := "/headers/" + itoa(to-1)
+	parked, release := make(chan struct{}), make(chan struct{})
+	var once sync.Once
+	var sawIndex atomic.Bool
+	core.GetGateAfter = func(k string, found bool) {
+		if k == heightKey && found {
+			sawIndex.Store(true)
+			return
+		}
+		// the next datastore read of this reader is the header itself
+		if sawIndex.Load() && found && k != heightKey {
+			once.Do(func() { close(parked); <-release })
+		}
+	}
+	res := make(chan string, 1)
+	go func() {
+		c, cancel := context.WithTimeout(ctx, 5*time.Second)
+		defer cancel()
+		if h, err := st.GetByHeight(c, uint64(to-1)); err == nil && h != nil && h.H == uint64(to-1) {
+			res <- "found"
+		} else {
+			res <- "err"
+		}
+	}()
+	pk := "yes"
+	select {
+	case <-parked:
+	case <-time.After(2 * time.Second):
+		pk = "no"
+	}
+	core.GetGateAfter = nil
+	del := "ok"
+	dctx, cancelD := context.WithTimeout(ctx, 5*time.Second)
+	if err := st.DeleteRange(dctx, 1, uint64(to)); err != nil {
+		del = "err"
+	}
+	cancelD()
+	close(release)
+	rd := "hang"
+	select {
+	case rd = <-res:
+	case <-time.After(3 * time.Second):
+	}
+	_ = st.Append(ctx, chain[n])
+	_ = st.Sync(ctx)
+	_ = st.Append(ctx, chain[n+1])
+	_ = st.Sync(ctx)
+	tl := uint64(0)
+	if t, err := st.Tail(ctx); err == nil && t != nil {
+		tl = t.H
+	}
+	below := "absent"
+	if h, err := st.GetByHeight(cancelled, uint64(to-1)); err == nil && h != nil {
+		below = "served"
+	}
+	hd := uint64(0)
+	if h, err := st.Head(ctx); err == nil && h != nil {
+		hd = h.H
+	}
+	emit("%s kind=stalledreader n=%d to=%d cache=%d => parked=%s delete=%s reader=%s head=%d tail=%d below=%s", prop, n, to, cache, pk, del, rd, hd, tl, below)
+	bounded(func() { st.Stop(ctx) })
 }
